@@ -216,19 +216,41 @@ def call_guarded(f):
             sys.settrace(None)
     limit = HANG_FAST if _HANGS['n'] >= HANG_K else HANG_LIMIT
     old = signal.signal(signal.SIGALRM, _on_alarm)
-    signal.setitimer(signal.ITIMER_REAL, limit)
-    try:
-        return True, f()
+    try:                                    # the outer try: the alarm may fire while the inner handlers are running
+        signal.setitimer(signal.ITIMER_REAL, limit)
+        try:
+            return True, f()
+        except Hang:
+            _HANGS['n'] += 1
+            return False, None
+        finally:
+            signal.setitimer(signal.ITIMER_REAL, 0)
     except Hang:
         _HANGS['n'] += 1
         return False, None
     finally:
-        signal.setitimer(signal.ITIMER_REAL, 0)
         signal.signal(signal.SIGALRM, old)
 
 
 def hang_limit():
     return HANG_FAST if _HANGS['n'] > HANG_K else HANG_LIMIT
+
+
+from props.common import FragStream  # noqa: E402
+
+
+class QuietStream(FragStream):
+    """FragStream without the request log: an implementation that spins on read() must not eat the memory of the check"""
+
+    def read(self, n=-1):
+        if n is None or n < 0:
+            n = len(self.data) - self.pos
+        k = n
+        if self.sched:
+            k = min(n, self.sched.pop(0) + 1)
+        part = self.data[self.pos:self.pos + k]
+        self.pos += len(part)
+        return part
 
 
 # ---------------------------------------------------------------- the browser-side encoder
@@ -709,14 +731,14 @@ def _run_impl(case):
     sched = case.get('sched') or []
     if case['framing'] == 'chunked':
         wire = chunked(body, case['chunks'], case.get('cstyle', 0))
-        env = environ('POST', '/', **{'wsgi.input': FragStream(wire, sched), 'CONTENT_TYPE': ctype,
+        env = environ('POST', '/', **{'wsgi.input': QuietStream(wire, sched), 'CONTENT_TYPE': ctype,
                                       'HTTP_TRANSFER_ENCODING': 'chunked'})
         both = case.get('cl_with_te')
         if both:
             env['CONTENT_LENGTH'] = str({'wire': len(wire), 'body': len(body), 'short': max(1, len(body) // 3),
                                          'long': len(wire) + 1000, 'zero': 0}[both])
     else:
-        env = environ('POST', '/', **{'wsgi.input': FragStream(body, sched), 'CONTENT_TYPE': ctype,
+        env = environ('POST', '/', **{'wsgi.input': QuietStream(body, sched), 'CONTENT_TYPE': ctype,
                                       'CONTENT_LENGTH': str(len(body))})
     status = []
     done, _ = call_guarded(lambda: b''.join(app(env, lambda s, h, e=None: status.append(s))))
